@@ -519,21 +519,23 @@ theorem entry_points_fail_together (env : Env) (henv : EnvOK env) (c : Call) (hv
 /-- what the code does with the caller's `drop_rows` set: every entry point hands it on, except
 that — unless the corresponding flag of the environment (probed on the live code) says otherwise —
 `ModelSpec.get_model_matrix` called WITH overrides and `ModelSpecs.get_model_matrix` on the joint
-path pass `None` instead -/
+path pass `None` instead; and `ModelSpecs.get_model_matrix` on the PER-SPEC path (parts that cannot
+share a materializer) hands every part the caller's set or, when the caller gave none, ONE set it
+creates itself (`dropAfter`: `perSpecDrop`) -/
 def dropOf (env : Env) (e : EntryPoints.Entry) (c : Call) (p : Prepared) : Option Nat :=
   match e with
   | .materializer => c.dropRows
   | .specMethodOv =>
     (match p with
       | .one _ => if c.overrides.isEmpty || env.fwdOverride then c.dropRows else none
-      | .many _ => dropAfter env p c.dropRows)
-  | _ => dropAfter env p c.dropRows
+      | .many _ => dropAfter env c p c.dropRows)
+  | _ => dropAfter env c p c.dropRows
 
 /-- C05.2c  (`drop_rows`, stated as the code is; its correctness is property C06) -/
 theorem drop_rows_forwarding (env : Env) (henv : EnvOK env) (c : Call) (hv : ValidSpec env c.spec) (e : EntryPoints.Entry)
     (p : Prepared) (hp : fromSpec env c.spec c.overrides = .ok p) (rs : List Request)
     (h : requestVia env e c = .ok rs) : ∀ q ∈ rs, q.dropRows = dropOf env e c p := by
-  have hspec : ∀ rs, specMethod env c = .ok rs → ∀ q ∈ rs, q.dropRows = dropAfter env p c.dropRows := by
+  have hspec : ∀ rs, specMethod env c = .ok rs → ∀ q ∈ rs, q.dropRows = dropAfter env c p c.dropRows := by
     intro rs h q hq
     rw [specMethod_eq, hp] at h
     exact (afterPrepared_plumbed h q hq).2.2.2
@@ -584,23 +586,98 @@ method, model-spec / model-specs method without and with overrides, materializer
 code forwards the caller's `drop_rows` on the override path and on the joint path (the two flags,
 probed on the live code on every run), any two entry points that both produce requests produce
 IDENTICAL ones — class, data, context, layers, constructor params, every prepared leaf, the
-simplification flag and the very `drop_rows` object. -/
+simplification flag and the very `drop_rows` object: the caller's, or — parts that cannot share a
+materializer and no set given — the ONE set `ModelSpecs.get_model_matrix` creates for the call
+(`dropAfter env c p c.dropRows`, stated as the second conclusion); the same number of passes, too. -/
 theorem entry_points_agree_exactly (env : Env) (henv : EnvOK env) (c : Call) (hv : ValidSpec env c.spec)
     (hfo : env.fwdOverride = true) (hfj : env.fwdJoint = true)
     (e₁ e₂ : EntryPoints.Entry) (r₁ r₂ : List Request)
-    (h₁ : requestVia env e₁ c = .ok r₁) (h₂ : requestVia env e₂ c = .ok r₂) : r₁ = r₂ := by
+    (h₁ : requestVia env e₁ c = .ok r₁) (h₂ : requestVia env e₂ c = .ok r₂) :
+    r₁ = r₂ ∧ ∀ p, fromSpec env c.spec c.overrides = .ok p → ∀ q ∈ r₁, q.dropRows = dropAfter env c p c.dropRows := by
   obtain ⟨s₁, hs₁, _⟩ := via_spec env henv c hv e₁ r₁ h₁
   rw [specMethod_eq] at hs₁
   cases hp : fromSpec env c.spec c.overrides with
   | error e => simp [hp] at hs₁
   | ok p =>
-    have hd : ∀ e, dropOf env e c p = c.dropRows := by
-      intro e
-      cases e <;> cases p <;> simp [dropOf, dropAfter, hfo, hfj]
+    -- under the two flags every entry point that succeeds hands on the same object
+    have hd : ∀ e rs, requestVia env e c = .ok rs → dropOf env e c p = dropAfter env c p c.dropRows := by
+      intro e rs h
+      cases e with
+      | sugar => rfl
+      | formulaMethod => rfl
+      | specMethod => rfl
+      | specMethodOv => cases p <;> simp [dropOf, dropAfter, hfo]
+      | materializer =>
+        simp only [requestVia] at h
+        rw [materializerMethod_eq, hp] at h
+        cases p with
+        | one ms => rfl
+        | many parts =>
+          simp only [wanted] at h
+          cases hj : jointLoop none none (parts.map (·.2)) with
+          | none => simp [hj] at h
+          | some mp => simp [dropOf, dropAfter, hj, hfj]
     have d₁ := drop_rows_forwarding env henv c hv e₁ p hp r₁ h₁
     have d₂ := drop_rows_forwarding env henv c hv e₂ p hp r₂ h₂
-    exact eq_of_eraseAll c.dropRows (entry_points_agree env henv c hv e₁ e₂ r₁ r₂ h₁ h₂)
-      (fun q hq => (d₁ q hq).trans (hd e₁)) (fun q hq => (d₂ q hq).trans (hd e₂))
+    refine ⟨eq_of_eraseAll (dropAfter env c p c.dropRows) (entry_points_agree env henv c hv e₁ e₂ r₁ r₂ h₁ h₂)
+      (fun q hq => (d₁ q hq).trans (hd e₁ r₁ h₁)) (fun q hq => (d₂ q hq).trans (hd e₂ r₂ h₂)), ?_⟩
+    intro p' hp' q hq
+    cases hp'
+    exact (d₁ q hq).trans (hd e₁ r₁ h₁)
+
+/-- C05.2g  The PER-SPEC branch of `ModelSpecs.get_model_matrix` (parts that nominate different
+materializers or constructor params): the requests are those of ONE pass over the parts — one
+single-leaf request per part, in part order — or of TWO identical passes, exactly when the drop set
+grew during the first (`c.dropGrows`, a parameter: the null rows of the data); every request of
+either pass carries the same set object: the caller's, or the one fresh set of the call. Through
+every entry point that reaches that branch (`entry_points_agree_exactly`). -/
+theorem per_spec_generation (env : Env) (c : Call) (parts : List (String × MSpec))
+    (hf : fromSpec env c.spec c.overrides = .ok (.many parts))
+    (hj : jointLoop none none (parts.map (·.2)) = none)
+    (rs : List Request) (h : requestVia env .specMethod c = .ok rs) :
+    ∃ pass : List Request, rs = twice c.dropGrows pass ∧ pass.length = parts.length ∧
+      ∀ q ∈ pass, q.dropRows = perSpecDrop c c.dropRows ∧ q.specs.length = 1 ∧ q.simplify = true := by
+  simp only [requestVia] at h
+  rw [specMethod_eq, hf] at h
+  simp only [afterPrepared, manyReq, hj] at h
+  cases hm : mapParts (fun ms => oneReq env c ms (perSpecDrop c c.dropRows)) parts with
+  | error e => simp [hm, Except.map] at h
+  | ok out =>
+    simp only [hm, Except.map, Except.ok.injEq] at h
+    refine ⟨out.map (·.2), h.symm, by simp [mapParts_map_snd_length _ parts out hm], ?_⟩
+    intro q hq
+    obtain ⟨kq, hkq, rfl⟩ := List.mem_map.mp hq
+    obtain ⟨p0, _, hp0⟩ := mapParts_ok_mem _ parts out hm kq hkq
+    simp only [oneReq] at hp0
+    cases hr : resolve env c p0.2.materializer with
+    | error e => simp [hr] at hp0
+    | ok r =>
+      simp only [hr] at hp0
+      obtain ⟨specs, hs, _, hq⟩ := mkReq_ok hp0
+      rw [hq]
+      refine ⟨rfl, ?_, rfl⟩
+      simpa [leavesOf] using mapParts_map_snd_length _ _ specs hs
+
+/-- the per-spec branch against the live registry: no set given → both parts get the call's fresh set
+(identity `freshDrop`), one pass when nothing is dropped, two identical passes when rows are; a set
+given → that very object -/
+example :
+    let a : MSpec := { formula := 1, materializer := some "pandas", params := some 1 }
+    let b : MSpec := { formula := 2, materializer := some "pandas" }
+    let call (d : Option Nat) (grows : Bool) : Call :=
+      { spec := .mspecs [("lhs", a), ("rhs", b)], data := 0, dataMat := some "pandas", context := none,
+        dropRows := d, overrides := [], freshDrop := 77, dropGrows := grows }
+    (∀ e : EntryPoints.Entry, e ≠ .materializer →
+      (requestVia liveEnv e (call none false)).map (fun rs => rs.map (fun q => (q.params, q.dropRows)))
+        = .ok [(some 1, some 77), (none, some 77)]) ∧
+    (requestVia liveEnv .sugar (call none true)).map (fun rs => rs.map (fun q => (q.params, q.dropRows)))
+      = .ok [(some 1, some 77), (none, some 77), (some 1, some 77), (none, some 77)] ∧
+    (requestVia liveEnv .specMethodOv (call (some 5) true)).map (fun rs => rs.map (·.dropRows))
+      = .ok [some 5, some 5, some 5, some 5] ∧
+    requestVia liveEnv .materializer (call none false) = .error .notFound := by
+  refine ⟨?_, by decide +kernel, by decide +kernel, by decide +kernel⟩
+  intro e he
+  cases e <;> first | exact absurd rfl he | decide +kernel
 
 /-- the live environment satisfies the two flag hypotheses exactly when the generated probes say so -/
 example (h1 : Gen.forwardsDropOnOverride = true) (h2 : Gen.forwardsDropOnJoint = true) :
@@ -811,7 +888,7 @@ theorem same_numbers_any_output_any_entry (env : Env) (henv : EnvOK env) (c : Ca
   obtain ⟨p₂, s₂, hp₂, ha₂, rfl⟩ := key o₂ e₂ v₂ h₂
   rw [hp₁] at hp₂
   cases hp₂
-  have hc : SameData (withOutput c o₁) (withOutput c o₂) := ⟨rfl, rfl, rfl⟩
+  have hc : SameData (withOutput c o₁) (withOutput c o₂) := ⟨rfl, rfl, rfl, rfl, rfl⟩
   refine values_sameButOut ?_ (afterPrepared_setOut hc ha₁ ha₂)
   intro ms ms' hms
   rw [valuesOf_dense content hok, valuesOf_dense content hok]
